@@ -6,7 +6,8 @@ search can return for that mover).  This file: the statements about the whole se
 `Proofs/Search.lean` for every board, every repetition history, every expiry index `k` of the
 modelled timeout and every value of the stale `max_depth` field.
 
-`firstPassFinished b tf k`: the poll that closes the first deepening pass (depth 0) did not report
+`firstPassFinished pos b tf k` (`pos` is the engine's `positional` flag; every statement holds for both values):
+the poll that closes the first deepening pass (depth 0) did not report
 expiry.  `isMateMove b mv`: the successor has no legal move and its side to move is in check
 (`isMateMove_spec`: for well-formed boards that is checkmate by the rules of chess).
 -/
@@ -23,12 +24,12 @@ board, repetition history, expiry index, stale `max_depth`.
 
 (`alphabeta` scores a capture that leaves insufficient material as a draw *before* it looks for
 mate; `insufficient_not_mate` below shows such a move never mates, so no side condition is needed.) -/
-theorem mate1_found (b : Board) (hwf : b.WF = true) (tf : ThreeFold) (k prev : Nat)
-    (hf : firstPassFinished b tf k = true)
+theorem mate1_found (pos : Bool) (b : Board) (hwf : b.WF = true) (tf : ThreeFold) (k prev : Nat)
+    (hf : firstPassFinished pos b tf k = true)
     (hm : ∃ mv ∈ Props.C10.movesOf (MoveGen.legals b), isMateMove b mv = true) :
-    ∃ mv, (search b tf k prev).move = some mv ∧ isMateMove b mv = true ∧
-      (search b tf k prev).score = mateInOne b.turn :=
-  Proofs.Insufficient.mate1_found_full b hwf tf k prev hf hm
+    ∃ mv, (search pos b tf k prev).move = some mv ∧ isMateMove b mv = true ∧
+      (search pos b tf k prev).score = mateInOne b.turn :=
+  Proofs.Insufficient.mate1_found_full pos b hwf tf k prev hf hm
 
 /-- the chess fact used: with insufficient material in the engine's sense (no queen, rook or pawn,
 at most one minor piece on the board) nobody is checkmated -/
@@ -38,10 +39,10 @@ theorem insufficient_not_mate (b : Board) (h : b.WF = true) (hi : insufficientMa
 
 /-- **truthful**: a mate-in-one score for the side to move is only ever reported together with a
 move that mates — every board, history, expiry index -/
-theorem mate1_truthful (b : Board) (tf : ThreeFold) (k prev : Nat)
-    (hs : (search b tf k prev).score = mateInOne b.turn) :
-    ∃ mv, (search b tf k prev).move = some mv ∧ isMateMove b mv = true :=
-  Proofs.Search.mate1_truthful b tf k prev hs
+theorem mate1_truthful (pos : Bool) (b : Board) (tf : ThreeFold) (k prev : Nat)
+    (hs : (search pos b tf k prev).score = mateInOne b.turn) :
+    ∃ mv, (search pos b tf k prev).move = some mv ∧ isMateMove b mv = true :=
+  Proofs.Search.mate1_truthful pos b tf k prev hs
 
 /-- "mates" in terms of the rules of chess -/
 theorem isMateMove_spec (b : Board) (hwf : b.WF = true) (mv : Move) (hl : (abs b).legal mv = true) :
